@@ -16,7 +16,7 @@ import subprocess
 import time
 from concurrent.futures import ThreadPoolExecutor
 
-REPO = "/repo"
+REPO = os.environ.get("BVA_REPO", "/repo")
 
 
 def _hooks():
